@@ -676,6 +676,8 @@ struct Written {
     all_null_pages: Vec<Vec<bool>>,
     /// per leaf, per page: for a mini-block page with a repetition index, (levels per chunk, (ends, partial) per chunk)
     mb_pages: Vec<Vec<Option<(Vec<u64>, Vec<(u64, u64)>)>>>,
+    /// page layout kinds present in the file
+    layouts: std::collections::BTreeSet<&'static str>,
 }
 
 fn write_file(rt: &tokio::runtime::Runtime, fs: &FileSpec) -> Result<Written, String> {
@@ -721,6 +723,7 @@ fn write_file(rt: &tokio::runtime::Runtime, fs: &FileSpec) -> Result<Written, St
         let mut pages = vec![];
         let mut all_null_pages = vec![];
         let mut mb_pages = vec![];
+        let mut layouts = std::collections::BTreeSet::new();
         let meta = reader.metadata().clone();
         let bytes = std::fs::read(format!("/{}", path.as_ref())).unwrap_or_default();
         for (k, (_, id)) in lv.iter().enumerate() {
@@ -748,8 +751,18 @@ fn write_file(rt: &tokio::runtime::Runtime, fs: &FileSpec) -> Result<Written, St
                     .collect(),
             );
             mb_pages.push(ci.page_infos.iter().map(|p| miniblock_probe(p, &bytes)).collect());
+            for p in ci.page_infos.iter() {
+                if let PageEncoding::Structural(pb21::PageLayout { layout: Some(l) }) = &p.encoding {
+                    layouts.insert(match l {
+                        pb21::page_layout::Layout::MiniBlockLayout(m) => if m.repetition_index_depth > 0 { "miniblock_rep" } else { "miniblock" },
+                        pb21::page_layout::Layout::FullZipLayout(_) => "fullzip",
+                        pb21::page_layout::Layout::AllNullLayout(_) => "allnull",
+                        _ => "other",
+                    });
+                }
+            }
         }
-        Ok(Written { _tmp: tmp, reader, sched, path, field_map, lance_schema, cols, pages, all_null_pages, mb_pages })
+        Ok(Written { _tmp: tmp, reader, sched, path, field_map, lance_schema, cols, pages, all_null_pages, mb_pages, layouts })
     })
 }
 
@@ -1205,6 +1218,57 @@ fn lance_schema_of(nodes: &[Node]) -> LanceSchema {
     s
 }
 
+
+/// does the leaf with DFS index `leaf` lie under a list whose items are lists or structs?
+fn leaf_under_nested_list(top: &[Node], leaf: usize) -> bool {
+    fn rec(n: &Node, under_list: bool, k: &mut usize, leaf: usize, out: &mut bool) {
+        match &n.ty {
+            Ty::List(c) | Ty::LList(c) => {
+                if !is_leaf(c) {
+                    // everything below an inner list / struct item is "nested"
+                    rec_all(c, k, leaf, out);
+                } else {
+                    rec(c, true, k, leaf, out)
+                }
+            }
+            Ty::Struct(ch) => ch.iter().for_each(|c| rec(c, under_list, k, leaf, out)),
+            _ => {
+                *k += 1;
+            }
+        }
+    }
+    fn rec_all(n: &Node, k: &mut usize, leaf: usize, out: &mut bool) {
+        match &n.ty {
+            Ty::List(c) | Ty::LList(c) => rec_all(c, k, leaf, out),
+            Ty::Struct(ch) => ch.iter().for_each(|c| rec_all(c, k, leaf, out)),
+            _ => {
+                if *k == leaf {
+                    *out = true;
+                }
+                *k += 1;
+            }
+        }
+    }
+    let mut k = 0;
+    let mut out = false;
+    for n in top {
+        rec(n, false, &mut k, leaf, &mut out);
+    }
+    out
+}
+
+/// the output line a correct read produces: `rows` cut into batches of `bs`, per projected leaf
+fn render_expected(rows: &[u64], bs: u32, proj: &[usize], want: &[Vec<String>]) -> String {
+    if rows.is_empty() || bs == 0 {
+        return "ok n=0".into();
+    }
+    let batches: Vec<String> = rows
+        .chunks(bs as usize)
+        .map(|c| proj.iter().map(|l| c.iter().map(|r| want[*l][*r as usize].clone()).collect::<Vec<_>>().join(";")).collect::<Vec<_>>().join("/"))
+        .collect();
+    format!("ok n={} {}", rows.len(), batches.join(" | "))
+}
+
 // ---------------------------------------------------------------- the property
 
 struct C25 {
@@ -1326,6 +1390,10 @@ impl C25 {
             });
         } else if let Some(rows) = expect_rows {
             let want = w.leaf_tokens(fs);
+            // open finding: a 2.0 file, an index list with a repeated row, a leaf below a list of lists / structs
+            let legacy_repeat = fs.version == LanceFileVersion::V2_0
+                && matches!(req, Req::Indices(is) if is.windows(2).any(|w| w[0] == w[1]))
+                && proj.iter().any(|l| leaf_under_nested_list(&fs.top, *l));
             for (k, l) in proj.iter().enumerate() {
                 let exp: Vec<&String> = rows.iter().map(|r| &want[*l][*r as usize]).collect();
                 if got[k].len() != exp.len() || got[k].iter().zip(&exp).any(|(a, b)| a != *b) {
@@ -1339,9 +1407,14 @@ impl C25 {
                             got[k].get(at),
                             exp.get(at)
                         ),
-                        key: Some(self.classify(w, fs, "rows_differ")),
+                        key: Some(if legacy_repeat { "legacy20_repeated_indices_nested".to_string() } else { self.classify(w, fs, "rows_differ") }),
                         line: li,
                     });
+                    if legacy_repeat {
+                        // recorded defect: print what a correct read returns so that the comparison with the model
+                        // stays about everything else (the failure itself is reported through the oracle)
+                        return render_expected(&rows, bs, proj, &want);
+                    }
                     break;
                 }
             }
@@ -1535,9 +1608,9 @@ impl Prop for C25 {
     }
     fn budget(&self, tier: Tier) -> usize {
         match tier {
-            Tier::Quick => 420,
-            Tier::Thorough => 6000,
-            Tier::Search => 2500,
+            Tier::Quick => 800,
+            Tier::Thorough => 12000,
+            Tier::Search => 3000,
         }
     }
     fn gen_case(&mut self, rng: &mut Rng, _tier: Tier, idx: usize) -> Vec<String> {
@@ -1622,6 +1695,14 @@ impl Prop for C25 {
                 let malformed = rng.chance(1, 8);
                 let mal_req = malformed && rng.chance(2, 3);
                 let req = gen_request(rng, n, mal_req);
+                // open finding legacy20_repeated_indices_nested: the 2.0 reader mishandles (or aborts on) repeated indices
+                let req = match req {
+                    Req::Indices(mut is) if fs.version == LanceFileVersion::V2_0 && !mal_req => {
+                        is.dedup();
+                        Req::Indices(is)
+                    }
+                    r => r,
+                };
                 let bs = if malformed && rng.chance(1, 6) {
                     0
                 } else {
@@ -1716,6 +1797,9 @@ impl Prop for C25 {
                         Ok(w) => {
                             res.tags.push(format!("v:{}", fs.vtxt));
                             res.tags.push(format!("leaves:{}", w.pages.len().min(6)));
+                            for l in &w.layouts {
+                                res.tags.push(format!("layout:{l}"));
+                            }
                             let maxp = w.pages.iter().map(|p| p.len()).max().unwrap_or(0);
                             res.tags.push(format!("pages:{}", if maxp <= 1 { "1" } else if maxp <= 4 { "2-4" } else { "5+" }));
                             if maxp > 1 {
